@@ -12,9 +12,9 @@ RULE = ("rasters up to 12x12 over value classes {small ints with ties, dyadic, u
         "for all five classifiers, Dask for binary/reclassify/equal_interval/quantile; non-trivial = distinct (function, k/bins, "
         "data hash) with >= 2 distinct output classes")
 BUDGET = {'quick': 100, 'thorough': 900}
-FLOORS = {'quick': {'binary.membership': 200, 'reclassify.first_bin_rule': 300, 'equal_interval.index': 200, 'quantile.bands': 200,
-                    'natural_breaks.optimal': 60, 'order_preserving': 600, 'finite_cells_classified': 600, 'range_0_k-1': 600,
-                    'dask.equal_interval': 30, 'dask.quantile.range_order': 30, 'max_cell_classified': 600},
+FLOORS = {'quick': {'binary.membership': 120, 'reclassify.first_bin_rule': 168, 'equal_interval.index': 175, 'quantile.bands': 174,
+                    'natural_breaks.optimal': 51, 'order_preserving': 553, 'finite_cells_classified': 553, 'range_0_k-1': 553,
+                    'dask.equal_interval': 30, 'dask.quantile.range_order': 30, 'max_cell_classified': 553},
           'thorough': {'binary.membership': 1500, 'reclassify.first_bin_rule': 1500, 'natural_breaks.optimal': 300,
                        'equal_interval.index': 1000, 'quantile.bands': 1000}}
 DONTCARE_OF = {'equal_interval.boundary_band': 'equal_interval.cells_judged', 'quantile.boundary_band': 'quantile.cells_judged'}
